@@ -1,26 +1,183 @@
 (* proofs/C05.v -- lemmas behind the C05 theorems (point and interval scores). *)
-From V Require Import lib.Tree gen.Gen_quantile_loss gen.Gen_functions model.C05.
+From V Require Import lib.Tree gen.Gen_quantile_loss gen.Gen_functions gen.Gen_interval gen.Gen_standard model.C05.
 
+Ltac kcbn := cbn -[Qle_bool Qeq_bool Qmult Qplus Qminus Qopp Qdiv Qinv Qabs Qcompare].
+
+(* ---------- pinball ---------- *)
 Lemma pinball_ok (a f o : Q) :
   gen_quantile_score (XFin f) (XFin o) (XFin a) =x= XFin (pinball_spec a f o).
 Proof.
-  unfold gen_quantile_score, pinball_spec, Qmax0. xunf. cbn -[Qle_bool Qmult Qplus Qminus Qopp].
+  unfold gen_quantile_score, pinball_spec, Qmax0. xunf. kcbn.
   qcmp; cbn; try lra; assert (f == o) by lra; nra.
 Qed.
 
-(* the guard fires exactly outside the open unit interval *)
-Lemma quantile_guard_spec (a : Q) :
-  gen_guard_quantile_score (XFin a) = None <-> 0 < a < 1.
+(* ---------- quantile interval score ---------- *)
+Definition xeq4 (a b : xv * xv * xv * xv) : Prop :=
+  let '(a1, a2, a3, a4) := a in let '(b1, b2, b3, b4) := b in a1 =x= b1 /\ a2 =x= b2 /\ a3 =x= b3 /\ a4 =x= b4.
+Definition fin4 (t : Q * Q * Q * Q) : xv * xv * xv * xv :=
+  let '(a, b, c, d) := t in (XFin a, XFin b, XFin c, XFin d).
+
+Lemma qis_ok (ll ul lo hi y : Q) : 0 < ll -> ul < 1 ->
+  xeq4 (gen_qis (XFin lo) (XFin hi) (XFin y) (XFin ll) (XFin ul)) (fin4 (qis_spec ll ul lo hi y)).
 Proof.
-  unfold gen_guard_quantile_score. xunf. cbn -[Qle_bool]. qcmp; cbn; split; intros; try discriminate; try lra; auto.
+  intros Hl Hu. unfold gen_qis, qis_spec, Qmax0, xeq4, fin4. xunf. unfold xdiv. kcbn.
+  pose proof (Qeq_bool_spec ll 0) as E1. destruct (Qeq_bool ll 0); [lra|].
+  pose proof (Qeq_bool_spec (1 + - ul) 0) as E2. destruct (Qeq_bool (1 + - ul) 0); [lra|].
+  kcbn.
+  assert (Hil : 0 < / ll) by (apply Qinv_lt_0_compat; lra).
+  assert (Hiu : 0 < / (1 + - ul)) by (apply Qinv_lt_0_compat; lra).
+  unfold Qdiv.
+  assert (Eiu : / (1 - ul) == / (1 + - ul)) by (apply Qinv_comp; ring).
+  qcmp; cbn; repeat split; rewrite ?Eiu;
+  set (il := / ll) in *; set (iu := / (1 + - ul)) in *; clearbody il iu;
+  try lra; try nra;
+  try (assert (y - hi == 0) by nra; nra); try (assert (lo - y == 0) by nra; nra).
 Qed.
 
-(* NaN in, NaN out -- and only then (finite alpha) *)
-Lemma quantile_nan_iff (f o : xv) (a : Q) :
-  xisinf f = false -> xisinf o = false ->
-  (gen_quantile_score f o (XFin a) = XNaN <-> f = XNaN \/ o = XNaN).
+(* an observation exactly on an end point is not penalised *)
+Lemma qis_on_endpoint (ll ul lo hi : Q) :
+  let '(_, ov, _, _) := qis_spec ll ul lo hi lo in ov == 0 /\
+  let '(_, _, un, _) := qis_spec ll ul lo hi hi in un == 0.
+Proof. unfold qis_spec, Qmax0. cbv zeta beta iota. split.
+ - pose proof (Qle_bool_spec 0 (lo - lo)) as H. destruct (Qle_bool 0 (lo - lo)); unfold Qdiv; [ring | lra].
+ - pose proof (Qle_bool_spec 0 (hi - hi)) as H. destruct (Qle_bool 0 (hi - hi)); unfold Qdiv; [ring | lra]. Qed.
+
+(* the two penalties are the pinball losses of the two quantile forecasts, restricted to the side on
+   which each can be penalised, scaled by 1/ll and 1/(1-ul):  total = width + ... *)
+Lemma qis_is_scaled_pinball (ll ul lo hi y : Q) : 0 < ll -> ll < 1 -> 0 < ul -> ul < 1 ->
+  let '(w, ov, un, tot) := qis_spec ll ul lo hi y in
+  ov == (pinball_spec ll lo y - ll * Qmax0 (y - lo)) / (ll * (1 - ll)) /\
+  un == (pinball_spec ul hi y - (1 - ul) * Qmax0 (hi - y)) / (ul * (1 - ul)) /\
+  tot == w + ov + un.
+Proof. intros. unfold qis_spec, pinball_spec. cbv zeta beta iota. repeat split; try reflexivity; field; lra. Qed.
+
+(* interval score = quantile interval score at the symmetric levels (1-r)/2, (1+r)/2 *)
+Lemma interval_levels_ok (r : Q) :
+  let '(lq, uq) := gen_interval_levels (XFin r) in lq =x= XFin ((1 - r) / 2) /\ uq =x= XFin ((1 + r) / 2).
+Proof. unfold gen_interval_levels. xunf. unfold xdiv. kcbn.
+  pose proof (Qeq_bool_spec 2 0) as E. destruct (Qeq_bool 2 0); [lra|]. cbn -[Qdiv Qplus Qminus Qopp]. split; field. Qed.
+
+(* and therefore width + (2/alpha) * penalties with alpha = 1 - r *)
+Lemma interval_score_textbook (r lo hi y : Q) : 0 < r -> r < 1 ->
+  let '(_, _, _, tot) := qis_spec ((1 - r) / 2) ((1 + r) / 2) lo hi y in
+  tot == (hi - lo) + (2 / (1 - r)) * Qmax0 (lo - y) + (2 / (1 - r)) * Qmax0 (y - hi).
+Proof. intros H0 H1. unfold qis_spec. cbv zeta beta iota. field. repeat split; lra. Qed.
+
+(* NaN-iff for every component: a case with a missing input is missing from all four components *)
+Lemma qis_nan_iff (lo hi y : xv) (ll ul : Q) : 0 < ll -> ul < 1 ->
+  xisinf lo = false -> xisinf hi = false -> xisinf y = false ->
+  let '(a, b, c, d) := gen_qis lo hi y (XFin ll) (XFin ul) in
+  let anynan := lo = XNaN \/ hi = XNaN \/ y = XNaN in
+  (a = XNaN <-> anynan) /\ (b = XNaN <-> anynan) /\ (c = XNaN <-> anynan) /\ (d = XNaN <-> anynan).
 Proof.
-  intros Hf Ho. destruct f as [|f|]; destruct o as [|o|]; try discriminate;
-  unfold gen_quantile_score; xunf; cbn -[Qle_bool Qmult Qplus Qminus Qopp]; qcmp; cbn;
-  intuition (auto; discriminate).
+  intros Hl Hu H1 H2 H3.
+  destruct lo as [|lo|]; destruct hi as [|hi|]; destruct y as [|y|]; try discriminate;
+  unfold gen_qis; xunf; unfold xdiv; kcbn;
+  (pose proof (Qeq_bool_spec ll 0) as E1; destruct (Qeq_bool ll 0); [lra|]);
+  (pose proof (Qeq_bool_spec (1 + - ul) 0) as E2; destruct (Qeq_bool (1 + - ul) 0); [lra|]);
+  kcbn; qcmp; cbn; intuition (auto; discriminate).
 Qed.
+
+(* ---------- squared / absolute error, bias ---------- *)
+Lemma mse_kernel_ok (f o : Q) : gen_mse_kernel (XFin f) (XFin o) false =x= XFin ((f - o) * (f - o)).
+Proof. unfold gen_mse_kernel. xunf. kcbn. ring. Qed.
+Lemma mae_kernel_ok (f o : Q) : gen_mae_kernel (XFin f) (XFin o) false =x= XFin (Qabs (f - o)).
+Proof. unfold gen_mae_kernel. xunf. kcbn. reflexivity. Qed.
+Lemma bias_kernel_ok (f o : Q) : gen_bias_kernel (XFin f) (XFin o) =x= XFin (f - o).
+Proof. unfold gen_bias_kernel. xunf. kcbn. reflexivity. Qed.
+Lemma mse_kernel_nan_iff (f o : xv) b : xisinf f = false -> xisinf o = false ->
+  (gen_mse_kernel f o b = XNaN <-> f = XNaN \/ o = XNaN).
+Proof. intros Hf Ho. destruct f as [|f|], o as [|o|]; try discriminate; destruct b;
+  unfold gen_mse_kernel, gen_angular_difference; xunf; unfold xmodc; kcbn; qcmp; cbn; intuition (auto; discriminate). Qed.
+Lemma mae_kernel_nan_iff (f o : xv) b : xisinf f = false -> xisinf o = false ->
+  (gen_mae_kernel f o b = XNaN <-> f = XNaN \/ o = XNaN).
+Proof. intros Hf Ho. destruct f as [|f|], o as [|o|]; try discriminate; destruct b;
+  unfold gen_mae_kernel, gen_angular_difference; xunf; unfold xmodc; kcbn; qcmp; cbn; intuition (auto; discriminate). Qed.
+
+(* ---------- list-level identities: MSE = bias^2 + var_f + var_o - 2 cov ---------- *)
+Fixpoint qsum2 (g : Q -> Q -> Q) (l : list (Q * Q)) : Q :=
+  match l with [] => 0 | (f, o) :: t => g f o + qsum2 g t end.
+Definition qlen (l : list (Q * Q)) : Q := inject_Z (Z.of_nat (length l)).
+Definition qmean2 (g : Q -> Q -> Q) (l : list (Q * Q)) : Q := qsum2 g l / qlen l.
+
+Lemma qsum2_lin (g h : Q -> Q -> Q) (a b c : Q) l :
+  qsum2 (fun f o => a * g f o + b * h f o + c) l == a * qsum2 g l + b * qsum2 h l + c * qlen l.
+Proof. unfold qlen. induction l as [|[f o] t IH].
+ - simpl. ring.
+ - cbn [qsum2 length]. rewrite IH. rewrite Nat2Z.inj_succ. unfold Z.succ. rewrite inject_Z_plus. ring. Qed.
+Lemma qsum2_ext (g h : Q -> Q -> Q) l : (forall f o, g f o == h f o) -> qsum2 g l == qsum2 h l.
+Proof. intro E. induction l as [|[f o] t IH]; simpl. reflexivity. rewrite E, IH. reflexivity. Qed.
+
+Theorem mse_decomposition (l : list (Q * Q)) : l <> [] ->
+  let mf := qmean2 (fun f _ => f) l in let mo := qmean2 (fun _ o => o) l in
+  qmean2 (fun f o => (f - o) * (f - o)) l ==
+    (mf - mo) * (mf - mo) + qmean2 (fun f _ => (f - mf) * (f - mf)) l + qmean2 (fun _ o => (o - mo) * (o - mo)) l
+    - 2 * qmean2 (fun f o => (f - mf) * (o - mo)) l.
+Proof.
+  intros Hne mf mo. unfold qmean2.
+  assert (Hn : ~ qlen l == 0).
+  { unfold qlen. destruct l; [congruence|]. cbn [length]. apply inject_nat_nz. }
+  set (n := qlen l) in *.
+  set (Sf := qsum2 (fun f _ => f) l). set (So := qsum2 (fun _ o => o) l).
+  set (Sff := qsum2 (fun f _ => f * f) l). set (Soo := qsum2 (fun _ o => o * o) l). set (Sfo := qsum2 (fun f o => f * o) l).
+  assert (Emf : mf == Sf / n) by reflexivity. assert (Emo : mo == So / n) by reflexivity.
+  (* expand every sum into the five basic sums *)
+  assert (E1 : qsum2 (fun f o => (f - o) * (f - o)) l == Sff + Soo - 2 * Sfo).
+  { rewrite (qsum2_ext _ (fun f o => 1 * (f * f + o * o) + (-2) * (f * o) + 0)) by (intros; ring).
+    rewrite qsum2_lin. rewrite (qsum2_ext (fun f o => f * f + o * o) (fun f o => 1 * (f * f) + 1 * (o * o) + 0)) by (intros; ring).
+    rewrite qsum2_lin. fold Sff Soo Sfo. try change (qsum2 Qmult l) with Sfo. ring. }
+  assert (E2 : qsum2 (fun f _ => (f - mf) * (f - mf)) l == Sff - 2 * mf * Sf + mf * mf * n).
+  { rewrite (qsum2_ext _ (fun f o => 1 * (f * f) + (-2 * mf) * f + mf * mf)) by (intros; ring).
+    rewrite qsum2_lin. fold Sff Sf n. ring. }
+  assert (E3 : qsum2 (fun _ o => (o - mo) * (o - mo)) l == Soo - 2 * mo * So + mo * mo * n).
+  { rewrite (qsum2_ext _ (fun f o => 1 * (o * o) + (-2 * mo) * o + mo * mo)) by (intros; ring).
+    rewrite qsum2_lin. fold Soo So n. ring. }
+  assert (E4 : qsum2 (fun f o => (f - mf) * (o - mo)) l == Sfo - mo * Sf - mf * So + mf * mo * n).
+  { rewrite (qsum2_ext _ (fun f o => 1 * (f * o) + 1 * ((- mo) * f + (- mf) * o) + mf * mo)) by (intros; ring).
+    rewrite qsum2_lin. rewrite (qsum2_ext (fun f o => - mo * f + - mf * o) (fun f o => (- mo) * f + (- mf) * o + 0)) by (intros; ring).
+    rewrite qsum2_lin. fold Sfo Sf So n. try change (qsum2 Qmult l) with Sfo. ring. }
+  rewrite E1, E2, E3, E4, Emf, Emo. field. exact Hn.
+Qed.
+
+(* KGE of a series with itself: covariance = variance and the ratio of means is 1, so rho^2 = alpha^2 = beta = 1 *)
+Theorem self_moments (l : list (Q * Q)) : (forall p, In p l -> fst p == snd p) ->
+  qsum2 (fun f o => f) l == qsum2 (fun f o => o) l /\
+  forall m, qsum2 (fun f o => (f - m) * (o - m)) l == qsum2 (fun f _ => (f - m) * (f - m)) l
+         /\ qsum2 (fun _ o => (o - m) * (o - m)) l == qsum2 (fun f _ => (f - m) * (f - m)) l.
+Proof. intro H. induction l as [|[f o] t IH].
+ - simpl. split; [reflexivity|]. intro; split; reflexivity.
+ - assert (E : f == o) by (apply (H (f, o)); left; reflexivity).
+   destruct IH as [A B]. { intros p Hp. apply H. right. exact Hp. }
+   split. { simpl. rewrite E, A. reflexivity. }
+   intro m. destruct (B m) as [B1 B2]. simpl. rewrite B1, B2, E. split; reflexivity.
+Qed.
+
+(* ---------- angular difference ---------- *)
+(* m(x) = x - 360 floor(x/360) in [0,360) *)
+Lemma mod360_range (x : Q) : let m := x - 360 * inject_Z (Qfloor (x / 360)) in 0 <= m /\ m < 360.
+Proof. cbv zeta. pose proof (Qfloor_le (x / 360)) as A. pose proof (Qlt_floor (x / 360)) as B.
+ rewrite inject_Z_plus in B. change (inject_Z 1) with 1 in B.
+ assert (E : x == 360 * (x / 360)) by (field).
+ split.
+ - assert (360 * inject_Z (Qfloor (x / 360)) <= 360 * (x / 360)) by nra. lra.
+ - assert (360 * (x / 360) < 360 * (inject_Z (Qfloor (x / 360)) + 1)) by nra. lra. Qed.
+
+Theorem angular_range (a b : Q) :
+  exists r, gen_angular_difference (XFin a) (XFin b) = XFin r /\ 0 <= r /\ r <= 180.
+Proof. unfold gen_angular_difference, xmodc. xunf. kcbn.
+ pose proof (mod360_range (Qabs (a + - b))) as [H0 H1]. cbv zeta in *.
+ set (m := Qabs (a + - b) - 360 * inject_Z (Qfloor (Qabs (a + - b) / 360))) in *.
+ qcmp.
+ - exists m. repeat split; auto.
+ - exists (360 + - m). repeat split; lra. Qed.
+
+Theorem angular_symmetric (a b : Q) :
+  gen_angular_difference (XFin a) (XFin b) =x= gen_angular_difference (XFin b) (XFin a).
+Proof. unfold gen_angular_difference, xmodc. xunf. kcbn.
+ assert (E : Qabs (a + - b) == Qabs (b + - a)).
+ { setoid_replace (b + - a) with (- (a + - b)) by ring. rewrite Qabs_opp. reflexivity. }
+ assert (F : Qfloor (Qabs (a + - b) / 360) = Qfloor (Qabs (b + - a) / 360)) by (rewrite E; reflexivity).
+ rewrite F.
+ assert (G : Qabs (a + - b) - 360 * inject_Z (Qfloor (Qabs (b + - a) / 360)) == Qabs (b + - a) - 360 * inject_Z (Qfloor (Qabs (b + - a) / 360))) by (rewrite E; reflexivity).
+ rewrite (Qle_bool_compat _ _ _ _ G (Qeq_refl 180)).
+ destruct (Qle_bool _ 180); cbn; rewrite G; reflexivity. Qed.
